@@ -13,7 +13,8 @@ PROPS['C18'] = dict(
     technique='exhaustive enumeration over small tie-heavy alphabets + rapidcheck random vectors against a specification sort',
     level_text='Every vector of length <= 5 (quick) / <= 7 (thorough) over alphabets built to contain ties, signed zeros, sign pairs and '
                'conjugate pairs is enumerated for every rule and entry point and compared with a specification written from the SortRule '
-               'documentation (permutation, key order, BothEnds prefix multiset, rejection of undefined rules); longer vectors are sampled. '
+               'documentation (permutation, key order, BothEnds prefix multiset, rejection of undefined rules); longer vectors are sampled, and so are vectors of values m*10^e over the whole exponent range of double '
+               '(denormals to the largest finite values: magnitudes whose squares leave the range). '
                'Exhaustive inside the stated bounds, sampling beyond them.',
     level_note='Trusts std::sort/IEEE comparisons in the oracle. complex x {LargestAlge, SmallestAlge, BothEnds} does not compile (operator< on '
                'std::complex) and is therefore rejected at compile time, not run.',
@@ -26,7 +27,7 @@ PROPS['C18'] = dict(
     min=dict(quick=dict(cases=1000000, nontrivial=500000), thorough=dict(cases=20000000, nontrivial=10000000)),
     rule='exhaustive layer: every vector of length 0..5 (quick) / 0..7 (thorough) over the real alphabet {-2,-1,-0.0,+0.0,1,1,2} '
          'and the complex alphabet {0,1,-1,i,-i,1+i,1-i,2} x 9 rules x {SortEigenvalue, argsort, argsort(len<size)}; rapidcheck layer: '
-         'lengths <= 200 with heavy ties, plus solver-level rule dispatch. Non-trivial = the vector contains a tie in the rule key, '
+         'lengths <= 200 with heavy ties, wide-range values (tiny / huge / any band, real and complex, length <= 24), plus solver-level rule dispatch. Non-trivial = the vector contains a tie in the rule key, '
          'or an undefined rule/type combination must be rejected; distinct = enumerated (distinct by construction) or 64-bit hash of the draw log.',
     tolerances='none (exact comparisons of keys)',
     assumptions=['std::sort and IEEE comparisons in the specification oracle'],
@@ -64,7 +65,8 @@ PROPS['C08'] = dict(
     technique='rapidcheck generation of element-wise drawn Hessenberg / tridiagonal matrices and shifts; every identity recomputed in long double from the Q the class exposes',
     level_text='Random search with integrated shrinking over (class, scalar type, n <= 24, five entry patterns incl. exact-zero / negligible / '
                'Taylor-branch subdiagonals and scales 1e-100..1e100, four shift kinds incl. exact eigenvalues) checking Q orthogonal, R triangular with '
-               'exact zeros, QR = H - sI, matrix_QtHQ = Q\'HQ with the documented shape, every apply_* overload against the explicit product, and the '
+               'exact zeros, QR = H - sI, matrix_QtHQ = Q\'HQ with the documented shape (the destination is handed over empty, pre-filled with a constant at the same or another size, or NaN-filled; '
+               'the object may have decomposed another matrix before), every apply_* overload against the explicit product, and the '
                'double-shift first-column condition, all to 64 n eps (||H||+|s|). Sampling, not a proof; the class histogram in evidence shows what was reached.',
     level_note='Reference products are formed in long double (for the long double instantiation the reference has the same precision; the asserted constant 64 '
                'leaves >15x headroom over the worst ratio observed). DoubleShiftQR is generated for n >= 3 and the other two for n >= 2 (the sizes their callers can produce).',
@@ -73,7 +75,7 @@ PROPS['C08'] = dict(
         quick=[dict(unit='c08', cases=5000, workers=4)],
         thorough=[dict(unit='c08', cases=100000, workers='all')],
     ),
-    min=dict(quick=dict(cases=15000, nontrivial=8000, classes={'DoubleShiftQR/double': 300, 'TridiagQR/float': 300, 'negligible_subdiagonal': 500, 'exact_eigenvalue_shift': 500, 'first_column_checked': 500}),
+    min=dict(quick=dict(cases=15000, nontrivial=8000, classes={'dest_prefilled_same_size': 3000, 'object_reused_after_other_compute': 1500, 'DoubleShiftQR/double': 300, 'TridiagQR/float': 300, 'negligible_subdiagonal': 500, 'exact_eigenvalue_shift': 500, 'first_column_checked': 500}),
              thorough=dict(cases=1000000, nontrivial=500000)),
     rule='case = (class in {UpperHessenbergQR, TridiagQR, DoubleShiftQR}, scalar in {float,double,long double}, n, entry pattern, entries drawn one by one, '
          'subdiagonal treatment, content of the part documented as ignored, shift kind / shifts, constructor path, apply-operand shape). Non-trivial = at least one nonzero '
@@ -88,7 +90,8 @@ PROPS['C09'] = dict(
     level_text='Random search with shrinking over (class, scalar type, n <= 64, ten entry patterns incl. exact-zero subdiagonals, Jordan-like and companion matrices, '
                'equal-diagonal 2x2 blocks, the zero matrix, scales 1e-100..1e100) checking T Z = Z diag(d) and Z orthogonal, U T U\' = H with U orthogonal and T '
                'quasi-triangular, unit-norm Hessenberg eigenpairs with small residual, exact-zero imaginary parts / adjacent exact conjugate pairs (positive first), '
-               'pairing of the eigenvalue list with the Schur diagonal blocks, trace, and that an iteration-limit failure is an exception, never numbers.',
+               'pairing of the eigenvalue list with the Schur diagonal blocks, trace, and that an iteration-limit failure is an exception, never numbers. History: with probability 1/2 the same object then '
+               'decomposes another matrix of another size and the target again; the second result must be bit-identical to the first.',
     level_note='Reference arithmetic in long double; Eigen SelfAdjointEigenSolver<long double> for the symmetric eigenvalue cross-check. The iteration-limit exception is '
                'accepted and counted, as the property allows.',
     units=[dict(name='c09', src='c09_eigen.cpp')],
@@ -96,7 +99,7 @@ PROPS['C09'] = dict(
         quick=[dict(unit='c09', cases=4000, workers=4)],
         thorough=[dict(unit='c09', cases=60000, workers='all')],
     ),
-    min=dict(quick=dict(cases=12000, nontrivial=5000, classes={'UpperHessenbergEigen/double': 300, 'TridiagEigen/float': 300, 'complex_pairs': 500, 'near_multiple_eigenvalue': 300, 'UpperHessenbergEigen/jordan_like': 100, 'UpperHessenbergSchur/reducible_small_int_blocks': 200}),
+    min=dict(quick=dict(cases=12000, nontrivial=5000, classes={'UpperHessenbergEigen/double': 300, 'TridiagEigen/float': 300, 'complex_pairs': 500, 'near_multiple_eigenvalue': 300, 'UpperHessenbergEigen/jordan_like': 100, 'UpperHessenbergSchur/reducible_small_int_blocks': 200, 'object_reused_after_other_matrix': 4000}),
              thorough=dict(cases=600000, nontrivial=300000)),
     rule='case = (class in {TridiagEigen, UpperHessenbergSchur, UpperHessenbergEigen}, scalar in {float,double,long double}, pattern (10 classes), n, entries / content seed, '
          'scale, constructor path). Non-trivial = n >= 3 and the matrix is not diagonal; distinct = 64-bit hash of the draw log.',
@@ -109,7 +112,8 @@ PROPS['C10'] = dict(
     technique='rapidcheck generation of symmetric / Hermitian matrices (small-integer, zero-diagonal, graded, block, SPD, indefinite) x shifts x storage forms; backward-error, exact-determinant (Bareiss) and metamorphic oracles',
     level_text='Random search with shrinking over scalar type (real and complex, three precisions), n <= 40, seven matrix classes (element-wise drawn small integers where '
                'singularity is decided exactly by a Bareiss determinant; zero diagonals that force 2x2 pivots; graded; block diagonal), four shift kinds, five argument forms '
-               '(col/row major, block, Map, expression), both triangles, recompute-after-failure histories. Asserts: success whenever sigma_min >= 1e-6 ||M||; backward error <= 64 n eps '
+               '(col/row major, block, Map, expression), both triangles, recompute-after-failure histories and reuse of one object after it factorized and solved another system of another size '
+               '(status and solution bit-identical to a fresh object). Asserts: success whenever sigma_min >= 1e-6 ||M||; backward error <= 64 n eps '
                '(||M|| ||x|| + ||b||) for every Successful solve; lower/upper status equal and solutions within 64 n eps cond; unused triangle never read (bit-identical); '
                'DenseSymShiftSolve::set_shift throws invalid_argument exactly when the factorization reports non-success.',
     level_note='sigma_min from Eigen SelfAdjointEigenSolver<complex long double>; exact singularity only for real integer matrices with integer shift (128-bit Bareiss).',
@@ -118,7 +122,7 @@ PROPS['C10'] = dict(
         quick=[dict(unit='c10', cases=5000, workers=4)],
         thorough=[dict(unit='c10', cases=80000, workers='all', set=dict(nmax=80))],
     ),
-    min=dict(quick=dict(cases=15000, nontrivial=8000, classes={'class/small_integer': 1000, 'class/zero_diagonal': 500, 'DenseSymShiftSolve wrapper': 1000, 'n=1': 50, 'reported_singular': 100, 'recompute_after_failure': 1000, 'exact_zero_line': 1000, 'exact_zero_line_at_n-2': 100}),
+    min=dict(quick=dict(cases=15000, nontrivial=8000, classes={'class/small_integer': 1000, 'class/zero_diagonal': 500, 'DenseSymShiftSolve wrapper': 1000, 'n=1': 50, 'reported_singular': 100, 'recompute_after_failure': 1000, 'exact_zero_line': 1000, 'exact_zero_line_at_n-2': 100, 'object_reused_after_other_system': 3000}),
              thorough=dict(cases=1000000, nontrivial=500000)),
     rule='case = (scalar type, matrix class, n, entries or content seed, scale, shift kind, argument form, first triangle, constructor path, optional failing factorization first, rhs seed) '
          'or a DenseSymShiftSolve wrapper case. Each case factorizes three times (given triangle, other triangle, given triangle with garbage in the unused one). '
